@@ -16,16 +16,19 @@ package zkmulstar
 //@   ensures result != nil && shaped(result)
 
 //@ func (*Proof).IsValid
+//@   use bits
 //@   nopanic[C10]
 //@   inline
-//@   requires public.C != nil && public.D != nil && public.X != nil && pkok(public.Verifier) && pedok(public.Aux) && (p != nil ==> shaped(p))
+//@   requires public.C != nil && public.D != nil && public.X != nil && pkok(public.Verifier) && pkvals(public.Verifier) && pkbig(public.Verifier) && pedok(public.Aux) && (p != nil ==> shaped(p))
 
 //@ func (*Proof).Verify
+//@   use bits
 //@   nopanic[C10]
 //@   modifies hstate(hash)
-//@   requires group != nil && hash != nil && hash.h != nil && public.C != nil && public.D != nil && public.X != nil && pkok(public.Verifier) && pedok(public.Aux) && (p != nil ==> shaped(p))
+//@   requires group != nil && hash != nil && hash.h != nil && public.C != nil && public.D != nil && public.X != nil && pkok(public.Verifier) && pkvals(public.Verifier) && pkbig(public.Verifier) && pedok(public.Aux) && (p != nil ==> shaped(p))
 
 //@ func challenge
+//@   use bits
 //@   nopanic[C10]
 //@   inline
-//@   requires group != nil && hash != nil && hash.h != nil && public.C != nil && public.D != nil && public.X != nil && pkok(public.Verifier) && pedok(public.Aux) && commitment != nil
+//@   requires group != nil && hash != nil && hash.h != nil && public.C != nil && public.D != nil && public.X != nil && pkok(public.Verifier) && pkvals(public.Verifier) && pkbig(public.Verifier) && pedok(public.Aux) && commitment != nil
